@@ -564,6 +564,17 @@ def r6(ctx):
            (src(r['stmt'].value) == dflt or (isinstance(r['stmt'].value, ast.Name) and src(r['env'].get(r['stmt'].value.id, ast.Constant(0))) == dflt))]
     ctx.emit('C11-R6', not bad, COUNTTABLE, f, 'readTag: on the normal path the value that was read is returned unchanged (the placeholder only comes from the except arm)' if not bad else
              'readTag: a normal (non-exception) path returns the placeholder instead of the value read', key='readTag:placeholder-only-on-failure')
+    # every row of the blacklist file reaches the table: rows grouped with itertools.groupby are grouped by ADJACENCY - storing a group under its key replaces what an
+    # earlier, non-adjacent group of the same contig stored (the file is in the order its author wrote it)
+    cct = ctx.fn(COUNTTABLE, 'create_count_table')
+    for gl in [l for l in ast.walk(cct) if isinstance(l, ast.For) and isinstance(l.iter, ast.Call) and (dotted(l.iter.func) or '').split('.')[-1] == 'groupby' and l.iter.args]:
+        srt = isinstance(l_ := gl.iter.args[0], ast.Call) and dotted(l_.func) == 'sorted'
+        keyv = gl.target.elts[0].id if isinstance(gl.target, ast.Tuple) and gl.target.elts and isinstance(gl.target.elts[0], ast.Name) else None
+        over = [a_ for a_ in ast.walk(gl) if isinstance(a_, ast.Assign) and any(isinstance(t_, ast.Subscript) and isinstance(t_.slice, ast.Name) and t_.slice.id == keyv and 'blacklist' in src(t_.value) for t_ in a_.targets)]
+        if over and not srt:
+            ctx.emit('C11-R6', False, COUNTTABLE, over[0], f'`{src(over[0])[:60]}` stores each run of adjacent rows under its contig: in a blacklist whose rows of one contig are not adjacent (chr1, chr2, chr1) the later run '
+                     'replaces the earlier one, reads in the earlier intervals are counted', key='blacklist-rows-all-loaded', witness={'rows': ['chr1 10 20', 'chr2 5 9', 'chr1 50 60'], 'loaded for chr1': [(50, 60)]},
+                     what='create_count_table: blacklist rows of a contig that are not adjacent in the file are lost')
     g = ctx.fn(COUNTTABLE, 'read_should_be_counted')
     loops = [l for l in walk_no_nested(g) if isinstance(l, ast.For) and 'blacklist' in src(l.iter)]
     if not loops:
